@@ -21,6 +21,9 @@ use emmylua_code_analysis::{
     uri_to_file_path,
 };
 use lsp_types::InitializeParams;
+#[cfg(feature = "verif_hooks")]
+use crate::verif_sync::RwLock;
+#[cfg(not(feature = "verif_hooks"))]
 use tokio::sync::RwLock;
 
 pub async fn initialized_handler(
